@@ -1,7 +1,7 @@
 """C03 — Failed and interrupted builds are recoverable (target.go, function.go, sourceFile.go, project.go, project_index.go)."""
 import build_common
 
-RULE = ("histories with failing bodies (which leave garbage in their first output) and with the process killed (os.Exit) at the k-th hook point — before / inside / after a body, before the failure / success record, after the record's temporary is created / written / renamed, inside the load-time refresh and inside the index rewrite — followed by the recovery build. Judge: after the fault every record file decodes and the project loads; the next successful build re-executes every body that had started and not completed with its record; its generated files equal a from-scratch build. Correspondence: the model applies the same prefix of its effect list (in the order the real runner visited the targets) and must reach the same persisted state and pass the same hook points. Systematic part: every named hook point (marker create/write/rename, before/inside/after the body, before the record, record create/write/rename) x target (function targets, sources) x {the record does not exist yet, the record is replaced} x {load phase, run phase}, each as its own history with the recovery build, including the load of a fresh project and of a freshly added target; after each the state must load (every record file decodes, the next load succeeds). Round 2: the saveIndex hook points (created / encoded) are part of the enumeration; after EVERY crash the state is loaded both ways (the next build loads from the build files; a copy is loaded preferring index.json); index.json is cut at 25 lengths (thorough: every length up to 2500) and then loaded preferring the index; crash-in-body followed by bystander loads (see C01). Round 3: template fail-then-alone: a dependency d fails with dependents waiting, d is then built alone (succeeds), then the dependents are built — they must run against the new d (catches a failure record that forgets the run counter); glob targets with delete/rmsrc edits (D28).")
+RULE = ("histories with failing bodies (which leave garbage in their first output) and with the process killed (os.Exit) at the k-th hook point — before / inside / after a body, before the failure / success record, after the record's temporary is created / written / renamed, inside the load-time refresh and inside the index rewrite — followed by the recovery build. Judge: after the fault every record file decodes and the project loads; the next successful build re-executes every body that had started and not completed with its record; its generated files equal a from-scratch build. Correspondence: the model applies the same prefix of its effect list (in the order the real runner visited the targets) and must reach the same persisted state and pass the same hook points. Systematic part: every named hook point (marker create/write/rename, before/inside/after the body, before the record, record create/write/rename) x target (function targets, sources) x {the record does not exist yet, the record is replaced} x {load phase, run phase}, each as its own history with the recovery build, including the load of a fresh project and of a freshly added target; after each the state must load (every record file decodes, the next load succeeds). Round 2: the saveIndex hook points (created / encoded) are part of the enumeration; after EVERY crash the state is loaded both ways (the next build loads from the build files; a copy is loaded preferring index.json); index.json is cut at 25 lengths (thorough: every length up to 2500) and then loaded preferring the index; crash-in-body followed by bystander loads (see C01). Round 3: template fail-then-alone: a dependency d fails with dependents waiting, d is then built alone (succeeds), then the dependents are built — they must run against the new d (catches a failure record that forgets the run counter); glob targets with delete/rmsrc edits (D29).")
 
 
 def run(c):
